@@ -17,6 +17,9 @@ def oracle(case, out):
         for j in e['served']:
             if e['kinds'][j] != 6: continue
             i0, tarr, gid0 = e['arrival'][j]
+            if e['applied'] < e['commit_at_arrival'][j]:
+                return ('lin-read-served-before-apply',
+                        'linearizable read %d arrived when the commit index was %d and was answered by event %s while the state machine had applied only %d: it cannot see the writes acknowledged before it' % (j, e['commit_at_arrival'][j], [e['k'], e['arg']], e['applied']))
             if e['stepdown_at'] is not None:
                 return ('lin-read-served-after-stepdown-decision',
                         'linearizable read %d answered at %d ms after the leader handled a higher-term message at %d ms' % (j, e['t1'], e['stepdown_at']))
